@@ -210,7 +210,7 @@ def check(mod, tier):
     seeds = range(1, 9)
     for extra in seeds:
       r2 = common.make_rng(prop, extra)
-      c2 = list(mod.gen_cases(r2, 'thorough' if extra > 2 else tier))
+      c2 = list(mod.gen_cases(r2, tier))
       if hasattr(mod, 'neighbourhood'):
         for d in disagreements[:5]:
           c2 = list(mod.neighbourhood(d[0], r2)) + c2
@@ -224,7 +224,7 @@ def check(mod, tier):
         if not holds and not any(mod.known_match(e, case, o, msg) for e in known):
           found = (case, o, line, msg)
           break
-      if found or time.time() - t0 > getattr(mod, 'SEARCH_BUDGET_S', 600):
+      if found or time.time() - t0 > getattr(mod, 'SEARCH_BUDGET_S', 120 if tier == 'quick' else 900):
         break
     extended = {'cases_tried': tried, 'found': bool(found)}
     if found:
